@@ -1,6 +1,6 @@
 //! C15 — fixed-layout suggestions are prefix completions of what was typed.
 
-use crate::driver::{keys, layout_inverse, layout_value, load_layout_json, Ctx, Layout, Opts, Rendered, Sandbox};
+use crate::driver::{keys, layout_inverse_opt, layout_value, load_layout_json, Ctx, Layout, Opts, Rendered, Sandbox};
 use crate::model::{curl_close, curl_open, data, emoji, levenshtein, ref_split, ZWNJ};
 use crate::props::c01::panic_kind;
 use crate::runner::{hash_of, with_fresh_retry, Failure, Run, Stats};
@@ -39,7 +39,7 @@ pub struct Local {
 pub fn mk_local() -> Local {
     let sb = Sandbox::new();
     let ctxs = (0..N_OPT).map(|i| Ctx::new(opts_of(i), &sb).expect("context")).collect();
-    Local { _sb: sb, ctxs, lay: load_layout_json(Layout::Probhat), inv: layout_inverse(Layout::Probhat) }
+    Local { _sb: sb, ctxs, lay: load_layout_json(Layout::Probhat), inv: layout_inverse_opt(Layout::Probhat, true) }
 }
 
 fn strip(s: &str) -> String {
@@ -149,6 +149,9 @@ fn check(c: &Case, lo: &mut Local, st: &mut Stats) -> Result<(), Failure> {
             return Ok(());
         }
     };
+    if ks.iter().any(|(code, _)| keys().by_code(*code).map(|k| k.numpad).unwrap_or(false)) {
+        st.label("word-needs-a-number-pad-key");
+    }
     ctx.finish().map_err(pf)?;
     let mut raw = String::new();
     let mut used_bs = false;
@@ -216,6 +219,22 @@ pub fn run(run: &Run) {
         },
     );
     run.sharded("wrapped-and-edited", 16, run.tier.pick(500, 12000), 500, strategy, |_| mk_local(), |c: &Case, st, lo| checked(c, lo, st));
+    // dictionary entries with an inner ASCII period (typed with the number-pad decimal key) are always included
+    let dotted: Vec<usize> = all.iter().enumerate().filter(|(_, w)| w.contains('.')).map(|(i, _)| i).collect();
+    run.exhaustive(
+        "dictionary-words-with-number-pad-characters",
+        &dotted,
+        |_| mk_local(),
+        |&wi, st, lo| {
+            for optidx in 0..N_OPT {
+                st.evals(1);
+                let c = Case { optidx, lead: String::new(), word: all[wi].clone(), trail: String::new(), retype: vec![] };
+                checked(&c, lo, st)?;
+            }
+            Ok(())
+        },
+    );
+    run.require_label("word-needs-a-number-pad-key", 1);
     run.require_label("emoji-source-present", 10);
     run.require_label("with-backspace", 20);
 }
